@@ -131,6 +131,21 @@ func (p *c16) structRT(rec *core.Recorder, r *core.Rand, tier string) {
 	}
 }
 
+// pathyNames reports whether a template set spells names that only a directory-backed loader would normalise ("a/../p",
+// "a//p", "a/./p"): an in-memory loader treats them as unknown names, a directory treats them as "a/p" or "p". The
+// difference is one between loader kinds, not between a template and its compiled form, so such sets are not compared
+// across the two.
+func pathyNames(srcs map[string]string) bool {
+	for n, s := range srcs {
+		for _, bad := range []string{"/../", "//", "/./"} {
+			if strings.Contains(s, bad) || strings.Contains(n, bad) {
+				return true
+			}
+		}
+	}
+	return false
+}
+
 func (p *c16) pipeline(rec *core.Recorder, r *core.Rand, viaLoader bool) {
 	ts := GenTSet(r.Fork(), "K")
 	srcs := (&mt.Printer{R: r.Fork()}).SourceSet(ts.Set)
@@ -138,7 +153,7 @@ func (p *c16) pipeline(rec *core.Recorder, r *core.Rand, viaLoader bool) {
 	wildEntry := ""
 	if r.P(1, 6) {
 		// an entry of the independently written corpus with its own context
-		if we, ok := wildPick(r); ok {
+		if we, ok := wildPick(r); ok && !(viaLoader && pathyNames(we.Templates)) {
 			srcs, wildEntry = we.Srcs(), we.Render
 			ctxOf = func(k int) map[string]interface{} { return we.Ctx(core.NewRand("C16wild", uint64(k), 0)) }
 			rec.Count("wild-entries", 1)
@@ -304,6 +319,32 @@ func (p *c16) pipeline(rec *core.Recorder, r *core.Rand, viaLoader bool) {
 		if (rb.Err != nil) != (rc.Err != nil) || (rb.Err == nil && rb.Out != rc.Out) {
 			rec.Violate("compiled-vs-source", core.SigHash("c16", canonSrcs(srcs)+entry),
 				fmt.Sprintf("template %q loaded from its compiled form renders %s (err=%v), its source renders %s (err=%v)", entry, core.Q(core.Trunc(rb.Out, 200)), rb.Err, core.Q(core.Trunc(rc.Out, 200)), rc.Err), cs, "")
+			return
+		}
+	}
+	if viaLoader {
+		// LoadAll reads back every file of the directory itself (sub-directories are left to Load)
+		rec.Count("loadall-checks", 1)
+		var names []string
+		var lerr error
+		core.Guard(func() {
+			b2 := twig.New()
+			lerr = twig.NewCompiledLoader(dir).LoadAll(b2)
+			names = b2.GetCachedTemplateNames()
+		})
+		have := map[string]bool{}
+		for _, n := range names {
+			have[n] = true
+		}
+		var missing []string
+		for _, n := range append(sortedKeys(srcs), sortedKeys(aliases)...) {
+			if !strings.Contains(n, "/") && !have[n] {
+				missing = append(missing, n)
+			}
+		}
+		if lerr != nil || len(missing) > 0 {
+			rec.Violate("compiled-loader-names", "loadall-misses-files",
+				fmt.Sprintf("LoadAll on the directory SaveCompiled wrote returned err=%v and left %d of the templates unloaded, e.g. %v", lerr, len(missing), missing[:min(3, len(missing))]), cs, "")
 			return
 		}
 	}
